@@ -24,7 +24,7 @@ func sessGen(r *vh.Rng, maxOps int) []string {
 	nP := 2 + r.Intn(2)
 	en2 := 4 + r.Intn(5)
 	for i := 0; i < nP; i++ {
-		mask := "1fffe000"
+		mask := vh.Pick(r, []string{"1fffe000", "1fffe000", "00ffe000", "1f000000"}) // what the pool grants may be narrower than what the miner asks for (1fffe000)
 		diff := vh.Pick(r, []string{"0", "0", "0", "5000", "0.5", "1", "0.0000152587890625", "0.000030517578125", "0.0000152587890625"})
 		ops = append(ops, fmt.Sprintf("pool %s mask=%s en1=%s en2size=%d diff=%s auth=1 reject=%s", sessPoolNames[i], mask,
 			vh.Pick(r, []string{"11650804a6c84c", "0a0b0c0d", "ffee"}), en2, diff, vh.Pick(r, []string{"-", "-", "-", "err", "false"})))
